@@ -23,3 +23,19 @@ Proof.
   destruct (Z.leb_spec (Z.log2 (Z.abs l) + 1) 0); [lia|].
   change (2 ^ 0) with 1. rewrite Z.quot_1_r. reflexivity.
 Qed.
+
+(* shifting a field element left by nothing changes nothing (the mask keeps every bit of it) *)
+Theorem shift_l_zero l p : 0 < p -> 0 <= l < p -> shift_l l 0 p = Ok l.
+Proof.
+  intros Hp Hl. unfold shift_l.
+  destruct (Z.leb_spec 0 (Z.quot p 2)); [|lia].
+  unfold shl_direct. change (to_usize 0) with (Some 0).
+  pose proof (radix_len_ge1 p) as Hr.
+  assert (E : (radix_len p <=? 0) = false) by lia.
+  cbv iota beta. rewrite E.
+  change (2 ^ 0) with 1. rewrite Z.mul_1_r. unfold mask.
+  replace (2 ^ radix_len p - 1) with (Z.ones (radix_len p)) by (rewrite Z.ones_equiv; lia).
+  rewrite Z.land_ones by lia.
+  pose proof (lt_pow2_nbits p Hp) as Hn. rewrite <- radix_len_pos in Hn by lia.
+  rewrite Z.mod_small by lia. rewrite modulus_id by lia. reflexivity.
+Qed.
